@@ -11,7 +11,7 @@ LEVEL = 'model_checking'
 RULE = ('every ordered selection of <= K of the equations {X=f(Y), X=g(Y,Z), Y=h(Z), Y=Z, Z=a, Y=b, X=[Y|Z], Z=[], '
         'Z=k(W), W=c} (every order in which a variable and the variables inside its value can get bound), established (1) as '
         'nested unify generators through the Python API (with the engine\'s term classes and with the caller\'s own subclasses of Variable and Functor) and (2) as the body of a compiled clause, also consumed through '
-        'findall/3 and through assertz + later read-back. At the innermost point get_value of X,Y,Z must be the fully '
+        'findall/3 and through assertz + later read-back. At the innermost point the get_value() / to_python() METHODS of the term objects the caller built must reflect all bindings, and get_value of X,Y,Z must be the fully '
         'dereferenced reference term (no bound variable anywhere inside), to_python must equal the reference value at '
         'every depth; the saved get_value results must be structurally unchanged after all generators are closed / '
         'the query has finished (the [v.get_value() for _ in q] idiom). (3) bind/undo histories: every sequence of <= D operations "unify one of 11 equations (variable-variable links, structures, list cells with variable tails)" / "undo the most recent unification" with get_value of ALL variables taken after every operation (a lookup is itself an operation: it must not change what later lookups see) compared with the stack of active substitutions; at the end of every history the lookups are also run under every recursion limit from the current stack depth upwards (RecursionError at every depth of the dereferencing) and must afterwards give the same values. (5) interleaved lifetimes: 1..3 unrelated unifications are active before the equations start and are closed after the j-th equation, for every j (bindings of different queries are not undone in reverse order). (4) every argument position: compounds of 1..9 arguments, each a variable or a structure around one, bound before / after the compound in 3 orders; long values: a list of N cells and N nested f(_) for N in {8,33,64,100,101,102,128,160}, bound one cell per equation in 3 orders through the API and outer-first by compiled recursive predicates (also through findall and assertz), the saved value walked without dereferencing at the answer and after backtracking. states = distinct (sequence outcome) '
@@ -155,8 +155,10 @@ def check_api(seq, user_terms=False):
     steps = 0
     label = 'Python API, nested unify generators: %s\n' % ' ; '.join('%s = %s' % (show_term(EQS[i][0]), show_term(EQS[i][1])) for i in seq)
     n_ok = 0
+    built = []
     for i in seq:
-        g = iter(impl.engine.unify(impl.to_engine(yp, EQS[i][0], vm), impl.to_engine(yp, EQS[i][1], vm)))
+        lhs, rhs = impl.to_engine(yp, EQS[i][0], vm), impl.to_engine(yp, EQS[i][1], vm)
+        g = iter(impl.engine.unify(lhs, rhs))
         gens.append(g)
         steps += 1
         try:
@@ -164,9 +166,28 @@ def check_api(seq, user_terms=False):
         except StopIteration:
             break
         n_ok += 1
+        built.append((EQS[i][1], rhs))
     if n_ok != len(envs):
         return ('violation', 'api:unification-count', label + '%d equations succeeded, the reference says %d' % (n_ok, len(envs)))
     env = envs[-1] if envs else {}
+    # the term OBJECTS the caller built for the right-hand sides: their own get_value() / to_python()
+    # methods reflect the bindings made since
+    for t, obj in built:
+        if not isinstance(obj, impl.Functor):
+            continue
+        r1 = raws([obj.get_value()])
+        if r1 != canon([t], env):
+            return ('violation', 'api:method-get_value-not-fully-dereferenced', label + 'the caller\'s term %s: its get_value() method gives %r, expected %r' % (show_term(t), r1, canon([t], env)))
+        try:
+            want = ref_py(t, env)
+        except ValueError:
+            continue
+        try:
+            gotp = obj.to_python()
+        except Exception as e:  # noqa: BLE001
+            return ('violation', 'api:method-to_python-raises:' + impl.exc_sig(e), label + 'the caller\'s term %s: its to_python() method raised %r, expected %r' % (show_term(t), e, want))
+        if gotp != want:
+            return ('violation', 'api:method-to_python-differs', label + 'the caller\'s term %s: its to_python() method gives %r, expected %r' % (show_term(t), gotp, want))
     saved = [impl.engine.get_value(v) for v in ev]
     r_in = raws(saved)
     exp = canon(VARS, env)
